@@ -109,7 +109,19 @@ func exploreOne(sc Scenario, deadline time.Time, trackStates bool) shardResult {
 	res := shardResult{Scenario: sc.ID(), Family: sc.Family(), Desc: sc.Describe()}
 	body := sc.Body()
 	cfg := vs.ExploreCfg{Bound: sc.MaxBound(), Deadline: deadline, Run: vs.Config{MaxSteps: 50000, TrackStates: trackStates}, Check: sc.Check}
-	r := vs.Explore(cfg, body)
+	var r *vs.Result
+	if sc.MaxBound() < 0 {
+		// default schedule only (deterministic long scenarios), run twice for the determinism check
+		ex := vs.RunOnce(cfg.Run, nil, body)
+		r = &vs.Result{Executions: 1, BoundDone: 0, States: ex.StateHashes, Transitions: ex.Steps, Outcomes: map[string]int{}}
+		v, out := sc.Check(ex)
+		r.Outcomes[out]++
+		if v != "" {
+			r.Failure = &vs.Failure{Choices: ex.Choices, Msg: v, Exec: ex}
+		}
+	} else {
+		r = vs.Explore(cfg, body)
+	}
 	res.Executions, res.BoundDone, res.Capped, res.States, res.Transitions, res.MaxPoints = r.Executions, r.BoundDone, r.Capped, len(r.States), r.Transitions, r.MaxPoints
 	res.Outcomes = map[string]int{}
 	for k, v := range r.Outcomes {
